@@ -203,6 +203,55 @@ func c13ListCase(r *mon.Run, lc listCase, c mon.Case) {
 			r.Violate("empty-not-separating", c, "%s: Empty() is not separated like a real item\n--- with Empty() ---\n%s\n--- with a real item, its text removed ---\n%s", desc(), injected, strings.Replace(marked, "EMPTYMARKQ", "", 1))
 		}
 	}
+	// two-phase: the tree that was just rendered is kept, some of its null-ish statements are given a real
+	// token, and it is rendered again; the result must equal a fresh build of the final list (a render must
+	// not remember that an item used to be null)
+	if lc.Arity <= 8 {
+		var held []*jen.Statement
+		var items, fresh, bare []jen.Code
+		mark := 0
+		for g := 0; g <= lc.Arity; g++ {
+			if lc.Nulls[g] >= 0 {
+				var st, st2 *jen.Statement
+				switch lc.Nulls[g] % 3 {
+				case 0:
+					st, st2 = jen.Null(), jen.Null()
+				case 1:
+					st, st2 = jen.Add(), jen.Add()
+				default:
+					st, st2 = jen.List(jen.Null()), jen.List(jen.Null())
+				}
+				held = append(held, st)
+				items = append(items, st)
+				mark++
+				fresh = append(fresh, st2.Id(fmt.Sprintf("late%dq", mark)))
+			}
+			if g < lc.Arity {
+				items = append(items, jen.Id(fmt.Sprintf("x%dq", g+1)))
+				fresh = append(fresh, jen.Id(fmt.Sprintf("x%dq", g+1)))
+				bare = append(bare, jen.Id(fmt.Sprintf("x%dq", g+1)))
+			}
+		}
+		if len(held) > 0 {
+			tree := k.mk(items...)
+			first, f4 := rawOf(tree)
+			for i, st := range held {
+				st.Id(fmt.Sprintf("late%dq", i+1))
+			}
+			second, f5 := rawOf(tree)
+			want, f6 := rawOf(k.mk(fresh...))
+			plain, f7 := rawOf(k.mk(bare...))
+			switch {
+			case f4 != "" || f5 != "" || f6 != "" || f7 != "":
+				r.Violate("null-item-failure", c, "%s two-phase render failed: %s %s %s", desc(), f4, f5, f6)
+			case first != plain:
+				r.Violate("null-item-changes-output", c, "%s (null statements held by reference) renders differently from the list without them\n%s\n---\n%s", desc(), first, plain)
+			case second != want:
+				r.Violate("stale-nullness", c, "%s: after a first render, %d of the null statements were given a token; the second render differs from a fresh build of the same final tree\n--- second render ---\n%s\n--- fresh build ---\n%s", desc(), len(held), second, want)
+			}
+			r.Count("two_phase_cases", 1)
+		}
+	}
 	if r.Verbose {
 		fmt.Printf("%s\n--- injected ---\n%s\n--- plain ---\n%s\n", desc(), injected, plain)
 	}
